@@ -49,6 +49,7 @@ open Srtla Srtla.Gen Srtla.Conn Srtla.Link Srtla.Sys
 abbrev Bytes := List UInt8
 
 variable {F : Type} [Scalar F]
+variable {fa : List (Nat × Nat)}
 
 /-! ## 1. Vocabulary -/
 
@@ -905,6 +906,7 @@ theorem projects (s : Sys F) (e : Ev) (hnr : e.isReload = false) : Projects s e 
   | setCfg cfg => exact projects_setCfg s cfg
   | crit d => exact projects_crit s d
   | failNext cid => exact projects_failNext s cid
+  | failAfter cid kfa => exact projects_failNext s cid
   | failBind cid => exact projects_failBind s cid
   | stamp idx weak ld ccb cct => exact projects_stamp s idx weak ld ccb cct
   | syncTimeout => exact projects_syncTimeout s
@@ -1395,7 +1397,7 @@ theorem same_of_sameShell {l l' : FLink F} (h : Uplink.SameShell l l') (hid : l'
 /-! ### the data path -/
 
 theorem fwdLink_rf (l : FLink F) (pkt : Link.Bytes) (seq : Option Nat) (now : Nat) (fn : List Nat) :
-    SendRf fn l (Hk.fwdLink l pkt seq now fn).1 ∧ Sub (Hk.fwdLink l pkt seq now fn).2.2 fn := by
+    SendRf fn l (Hk.fwdLink fa l pkt seq now fn).1 ∧ Sub (Hk.fwdLink fa l pkt seq now fn).2.2 fn := by
   have hq := same_queue l pkt seq now
   unfold Hk.fwdLink
   split
@@ -1424,7 +1426,7 @@ theorem forwardVia_rf (s : Sys F) (sel : Nat) (pkt : Sys.Bytes) (seq : Option Na
     exact ⟨Hk.pw_setAt (SendRf.refl _) _ _ l _ hl f1, f2⟩
 
 theorem probeLink_rf (l : FLink F) (pkt : Link.Bytes) (seq : Option Nat) (now : Nat) (fn : List Nat) :
-    SendRf fn l (Hk.probeLink l pkt seq now fn).1 ∧ Sub (Hk.probeLink l pkt seq now fn).2.2 fn := by
+    SendRf fn l (Hk.probeLink fa l pkt seq now fn).1 ∧ Sub (Hk.probeLink fa l pkt seq now fn).2.2 fn := by
   have hp := same_stallProbeDue l
   unfold Hk.probeLink
   split
@@ -1434,8 +1436,8 @@ theorem probeLink_rf (l : FLink F) (pkt : Link.Bytes) (seq : Option Nat) (now : 
 
 theorem stallProbes_rf (pkt : Sys.Bytes) (seq : Option Nat) (now sel : Nat) (ls : List (FLink F)) (i : Nat)
     (fn : List Nat) :
-    Hk.PW (SendRf fn) ls (stallProbesGo pkt seq now sel ls i fn).1 ∧
-    Sub (stallProbesGo pkt seq now sel ls i fn).2.2 fn := by
+    Hk.PW (SendRf fn) ls (stallProbesGo fa pkt seq now sel ls i fn).1 ∧
+    Sub (stallProbesGo fa pkt seq now sel ls i fn).2.2 fn := by
   induction ls generalizing i fn with
   | nil => exact ⟨.nil, Sub.refl _⟩
   | cons l rest ih =>
@@ -1444,7 +1446,7 @@ theorem stallProbes_rf (pkt : Sys.Bytes) (seq : Option Nat) (now sel : Nat) (ls 
     · obtain ⟨h1, h2⟩ := ih (i + 1) fn
       exact ⟨.cons (SendRf.refl _ _) h1, h2⟩
     · obtain ⟨p1, p2⟩ := probeLink_rf l pkt seq now fn
-      obtain ⟨h1, h2⟩ := ih (i + 1) (Hk.probeLink l pkt seq now fn).2.2
+      obtain ⟨h1, h2⟩ := ih (i + 1) (Hk.probeLink fa l pkt seq now fn).2.2
       dsimp only
       refine ⟨.cons p1 (h1.mono (fun a b h => ⟨h.1, h.2.imp id (fun hc => p2 _ hc)⟩)), h2.trans p2⟩
 
@@ -1495,7 +1497,7 @@ theorem client_rf (s : Sys F) (pkt : Sys.Bytes) (now : Nat) :
       · exact ⟨hstage2, f2⟩
 
 theorem flushGo_rf (now : Nat) (ls : List (FLink F)) (fn : List Nat) :
-    Hk.PW SameRf ls (flushGo now ls fn).1 ∧ Sub (flushGo now ls fn).2.2 fn := by
+    Hk.PW SameRf ls (flushGo fa now ls fn).1 ∧ Sub (flushGo fa now ls fn).2.2 fn := by
   induction ls generalizing fn with
   | nil => exact ⟨.nil, Sub.refl _⟩
   | cons l rest ih =>
@@ -1503,7 +1505,7 @@ theorem flushGo_rf (now : Nat) (ls : List (FLink F)) (fn : List Nat) :
     split
     · dsimp only
       obtain ⟨e1, e2⟩ := Hk.sendBatch_cases l now fn
-      obtain ⟨h1, h2⟩ := ih (sendConnectionBatch l now fn).2.2.2
+      obtain ⟨h1, h2⟩ := ih (sendConnectionBatch fa l now fn).2.2.2
       refine ⟨.cons (by rw [e1]; exact same_takeBatch l now) h1, h2.trans ?_⟩
       rcases e2 with ⟨-, efn⟩ | ⟨-, -, efn⟩
       · rw [efn]; exact Sub.refl _
@@ -2059,6 +2061,15 @@ theorem att_step {i cid D : Nat} {s : Sys F} (h : Att i cid D s) (hok : RegOk s.
   | setCfg cfg => exact ⟨att_frame h rfl rfl h.nofail h.nobind, fun _ he => by cases he⟩
   | crit d => exact ⟨att_frame h rfl rfl h.nofail h.nobind, fun _ he => by cases he⟩
   | failNext c =>
+    refine ⟨att_frame h rfl rfl ?_ h.nobind, fun _ he => by cases he⟩
+    show (c :: s.failNext).contains cid = false
+    have hc : c ≠ cid := fun hc => hne (by rw [hc])
+    have := h.nofail
+    simp only [List.contains_eq_mem, List.mem_cons, decide_eq_false_iff_not] at this ⊢
+    rintro (h1 | h1)
+    · exact hc h1.symm
+    · exact this h1
+  | failAfter c kfa =>
     refine ⟨att_frame h rfl rfl ?_ h.nobind, fun _ he => by cases he⟩
     show (c :: s.failNext).contains cid = false
     have hc : c ≠ cid := fun hc => hne (by rw [hc])
